@@ -49,10 +49,11 @@ def is_ref_helper(ctx, d):
 
 
 def bbody(ctx, name):
-    from mirq import inline_calls
+    from mirq import inline_calls, inline_async
     b = ctx.mir.body(name)
     if b is None:
         return None
+    b = inline_async(b, lambda d: is_ref_helper(ctx, d), depth=3)
     return inline_calls(b, lambda d: is_ref_helper(ctx, d), depth=3)
 
 
